@@ -1,5 +1,6 @@
 SPECIFICATION Spec
-CONSTANTS Design = "repaired"
+CONSTANTS Design = "asbuilt"
           MaxUses = 4
+          BackRef = FALSE
 INVARIANTS UsedLikeFresh ReadsOnlyRootWhenOff ReadsOnlyRefDerived
 CHECK_DEADLOCK FALSE
